@@ -106,6 +106,21 @@ Definition strict_opts := {| v_reserved := true; v_version := true; v_unused := 
 Definition dres (A : Type) := result derr A.
 Definition mres := result (list derr) message.
 
+(** results of a list of AVP records *)
+Definition is_err {A} (r : dres A) : bool := match r with Err _ => true | Ok _ => false end.
+Fixpoint errs_of {A} (l : list (dres A)) : list derr :=
+  match l with
+  | [] => []
+  | Err e :: t => e :: errs_of t
+  | Ok _ :: t => errs_of t
+  end.
+Fixpoint oks_of {A} (l : list (dres A)) : list A :=
+  match l with
+  | [] => []
+  | Ok a :: t => a :: oks_of t
+  | Err _ :: t => oks_of t
+  end.
+
 (** enumeration code tables *)
 Definition mt_code (t : msg_type) : N :=
   match t with
